@@ -1,4 +1,575 @@
 import LcModel.Quorum.Model
 /-! helper lemmas for the Quorum layer -/
 namespace Quorum
+
+/-! ## return paths of `finalize` -/
+
+def req (s : St) : Nat := (s.maxOutbound + 1) / 2
+
+def proven (s : St) : List (Nat × PeerCp) := s.peers.filter (·.2.proved)
+
+def kept (s : St) : List (Nat × List Nat) :=
+  (proven s).filterMap (fun e =>
+    match clean s.maxCp (s.final.getLast?.getD 0) e.2 with
+    | .keep cps _ => some (e.1, cps)
+    | _ => none)
+
+def bannedOf (s : St) : List Nat :=
+  ((proven s).filter (fun e => clean s.maxCp (s.final.getLast?.getD 0) e.2 = .skipBan)).map (·.1)
+
+def lengthMax (s : St) : Nat := (sortNat ((kept s).map (·.2.length)))[req s - 1]?.getD 0
+
+/-- all return paths of `finalize` -/
+theorem finalize_ok {s : St} {choices : List Nat} {out : FinOut}
+    (h : finalize s choices = .ok out) :
+    1 ≤ req s ∧
+    (((proven s).length < req s ∧ out.st.final = s.final ∧ out.banned = []) ∨
+     (req s ≤ (proven s).length ∧ out.banned = bannedOf s ∧
+      (((kept s).length < req s ∧ out.st.final = s.final) ∨
+       (req s ≤ (kept s).length ∧
+        ∃ rest acc, agree (req s) (lengthMax s - 1) 1 choices (kept s) none = (rest, acc) ∧
+          ((acc = none ∧ out.st.final = s.final) ∨
+           ∃ index cp pid cps tl, acc = some (index, cp) ∧ rest = (pid, cps) :: tl ∧
+             out.st.final = s.final ++ (cps.drop 1).take index))))) := by
+  unfold finalize at h
+  simp only [M.bind_eq_ok] at h
+  obtain ⟨required, hr, h⟩ := h
+  have hreq : required = req s ∧ 1 ≤ req s := by
+    unfold requiredPeers at hr
+    simp only at hr
+    split at hr
+    · cases hr
+    · simp only [M.pure_eq_ok] at hr
+      unfold req; omega
+  obtain ⟨rfl, h1⟩ := hreq
+  refine ⟨h1, ?_⟩
+  split at h
+  · left
+    simp only [M.pure_eq_ok] at h
+    subst h
+    rename_i hlt
+    exact ⟨hlt, rfl, rfl⟩
+  · right
+    rename_i hge
+    refine ⟨Nat.le_of_not_lt hge, ?_⟩
+    have hdata : (((proven s).map (fun e => (e.1, clean s.maxCp (s.final.getLast?.getD 0) e.2))).filterMap
+        (fun e => finalize.match_1 (fun _ => Option (Nat × List Nat)) e.2 (fun cps _ => some (e.1, cps))
+          (fun _ => none))) = kept s := by
+      rw [List.filterMap_map]; rfl
+    have hban : List.map (fun x => x.fst)
+              (List.filter (fun e => decide (e.snd = Clean.skipBan))
+                (List.map (fun e => (e.fst, clean s.maxCp (s.final.getLast?.getD 0) e.snd))
+                  (proven s))) = bannedOf s := by
+      rw [List.filter_map, List.map_map]; rfl
+    unfold proven at hdata hban
+    rw [hdata, hban] at h
+    clear hdata hban
+    split at h
+    · rename_i hlt
+      simp only [M.pure_eq_ok] at h
+      subst h
+      exact ⟨rfl, Or.inl ⟨hlt, rfl⟩⟩
+    · rename_i hge2
+      generalize hag : agree (req s) ((sortNat (List.map (fun x => x.snd.length) (kept s)))[req s - 1]?.getD 0 - 1) 1 choices (kept s) none = res at h
+      obtain ⟨rest, acc⟩ := res
+      simp only at h
+      cases acc with
+      | none =>
+        simp only [M.pure_eq_ok] at h
+        subst h
+        exact ⟨rfl, Or.inr ⟨Nat.le_of_not_lt hge2, rest, none, hag, Or.inl ⟨rfl, rfl⟩⟩⟩
+      | some ic =>
+        obtain ⟨index, cp⟩ := ic
+        cases rest with
+        | nil => simp at h
+        | cons hd tl =>
+          obtain ⟨pid, cps⟩ := hd
+          simp only [M.pure_eq_ok] at h
+          subst h
+          exact ⟨rfl, Or.inr ⟨Nat.le_of_not_lt hge2, _, _, hag,
+            Or.inr ⟨index, cp, pid, cps, tl, rfl, rfl, rfl⟩⟩⟩
+/-! ## `clean` -/
+
+theorem clean_skipBan (lastIdx lastCp : Nat) (p : PeerCp) :
+    clean lastIdx lastCp p = .skipBan ↔
+      (lastIdx < p.start ∨ (lastIdx - p.start < p.cps.length ∧ p.cps[lastIdx - p.start]? ≠ some lastCp)) := by
+  unfold clean
+  simp only
+  split
+  · simp [*]
+  · split
+    · simp; omega
+    · split
+      · simp [*]; omega
+      · simp [*]
+
+/-! ## one step of the agreement loop -/
+
+/-- number of vectors with value `v` in column `idx` -/
+def cnt (data : List (Nat × List Nat)) (idx v : Nat) : Nat :=
+  (data.filter (fun d => d.2[idx]? = some v)).length
+
+theorem countOf_col (data : List (Nat × List Nat)) (idx v : Nat) :
+    countOf v (data.map (fun d => d.2[idx]?)) = cnt data idx v := by
+  unfold countOf cnt
+  rw [List.filter_map, List.length_map]
+  rfl
+
+theorem mem_tally {data : List (Nat × List Nat)} {idx : Nat} {e : Nat × Nat} :
+    e ∈ tally data idx ↔ (∃ d ∈ data, d.2[idx]? = some e.1) ∧ e.2 = cnt data idx e.1 := by
+  unfold tally
+  simp only [List.mem_map, List.mem_eraseDups, List.mem_filterMap, id, countOf_col]
+  constructor
+  · rintro ⟨v, ⟨_, ⟨d, hd, rfl⟩, hv⟩, rfl⟩
+    exact ⟨⟨d, hd, hv⟩, rfl⟩
+  · rintro ⟨⟨d, hd, hv⟩, h2⟩
+    exact ⟨e.1, ⟨_, ⟨d, hd, rfl⟩, hv⟩, by rw [← h2]⟩
+
+theorem foldl_max_ge (t : List (Nat × Nat)) (m : Nat) :
+    m ≤ t.foldl (fun m e => max m e.2) m ∧ ∀ e ∈ t, e.2 ≤ t.foldl (fun m e => max m e.2) m := by
+  induction t generalizing m with
+  | nil => simp
+  | cons x xs ih =>
+    simp only [List.foldl_cons, List.mem_cons, forall_eq_or_imp]
+    have := ih (max m x.2)
+    refine ⟨by omega, by omega, this.2⟩
+
+theorem foldl_max_attained (t : List (Nat × Nat)) (m : Nat) :
+    t.foldl (fun m e => max m e.2) m = m ∨ ∃ e ∈ t, e.2 = t.foldl (fun m e => max m e.2) m := by
+  induction t generalizing m with
+  | nil => simp
+  | cons x xs ih =>
+    simp only [List.foldl_cons, List.mem_cons, exists_eq_or_imp]
+    rcases ih (max m x.2) with h | ⟨e, he, h⟩
+    · rw [h]; omega
+    · exact Or.inr (Or.inr ⟨e, he, h⟩)
+
+theorem le_maxCount {t : List (Nat × Nat)} {e : Nat × Nat} (h : e ∈ t) : e.2 ≤ maxCount t :=
+  (foldl_max_ge t 0).2 e h
+
+theorem maxCount_attained {t : List (Nat × Nat)} (h : 0 < maxCount t) :
+    ∃ e ∈ t, e.2 = maxCount t := by
+  rcases foldl_max_attained t 0 with h0 | h0
+  · unfold maxCount at h; omega
+  · exact h0
+
+theorem cnt_le_maxCount (data : List (Nat × List Nat)) (idx v : Nat) :
+    cnt data idx v ≤ maxCount (tally data idx) := by
+  by_cases h0 : cnt data idx v = 0
+  · omega
+  · have : data.filter (fun d => d.2[idx]? = some v) ≠ [] := by
+      intro h; apply h0; unfold cnt; rw [h]; rfl
+    obtain ⟨d, hd⟩ := List.exists_mem_of_ne_nil _ this
+    simp only [List.mem_filter, decide_eq_true_eq] at hd
+    exact le_maxCount (e := (v, cnt data idx v)) (mem_tally.2 ⟨⟨d, hd.1, hd.2⟩, rfl⟩)
+
+/-- the filtered data of one loop step -/
+def keepAt (data : List (Nat × List Nat)) (idx cp : Nat) : List (Nat × List Nat) :=
+  data.filter (fun d => d.2[idx]? = some cp)
+
+theorem agree_zero (required idx : Nat) (choices : List Nat) (data : List (Nat × List Nat))
+    (acc : Option (Nat × Nat)) : agree required 0 idx choices data acc = (data, acc) := rfl
+
+theorem agree_stop {required fuel idx : Nat} {choices : List Nat} {data : List (Nat × List Nat)}
+    {acc : Option (Nat × Nat)} (h : ¬ required ≤ maxCount (tally data idx)) :
+    agree required (fuel + 1) idx choices data acc = (data, acc) := by
+  simp only [agree, h, if_false]
+
+theorem agree_step {required fuel idx : Nat} {choices : List Nat} {data : List (Nat × List Nat)}
+    {acc : Option (Nat × Nat)} (hreq : 1 ≤ required) (h : required ≤ maxCount (tally data idx)) :
+    ∃ cp, cnt data idx cp = maxCount (tally data idx) ∧
+      agree required (fuel + 1) idx choices data acc =
+        agree required fuel (idx + 1) choices.tail (keepAt data idx cp) (some (idx, cp)) := by
+  have hcands : ∀ c ∈ ((tally data idx).filter (·.2 = maxCount (tally data idx))).map (·.1),
+      cnt data idx c = maxCount (tally data idx) := by
+    intro c hc
+    simp only [List.mem_map, List.mem_filter, decide_eq_true_eq] at hc
+    obtain ⟨e, ⟨he, hm⟩, rfl⟩ := hc
+    rw [← hm]; exact (mem_tally.1 he).2.symm
+  have hne : ((tally data idx).filter (·.2 = maxCount (tally data idx))).map (·.1) ≠ [] := by
+    obtain ⟨e, he, hm⟩ := maxCount_attained (t := tally data idx) (by omega)
+    intro hnil
+    have : e.1 ∈ ((tally data idx).filter (·.2 = maxCount (tally data idx))).map (·.1) :=
+      List.mem_map.2 ⟨e, List.mem_filter.2 ⟨he, by simpa using hm⟩, rfl⟩
+    rw [hnil] at this; cases this
+  have hhead : ∀ l : List Nat, l ≠ [] → l.headD 0 ∈ l := by
+    intro l hl; cases l with
+    | nil => exact absurd rfl hl
+    | cons a as => simp
+  have key : ∀ cp, cp ∈ ((tally data idx).filter (·.2 = maxCount (tally data idx))).map (·.1) →
+      (if maxCount (tally data idx) ≠ data.length then
+        data.filter (fun d => d.2[idx]? = some cp) else data) = keepAt data idx cp := by
+    intro cp hcp
+    split
+    · rfl
+    · rename_i hlen
+      simp only [ne_eq, Decidable.not_not] at hlen
+      have := hcands cp hcp
+      unfold cnt at this
+      unfold keepAt
+      rw [hlen] at this
+      exact (List.filter_eq_self.2 (List.length_filter_eq_length_iff.1 this)).symm
+  simp only [agree, h, if_true]
+  cases choices with
+  | nil =>
+    simp only
+    have hm := hhead _ hne
+    exact ⟨_, hcands _ hm, by rw [key _ hm]⟩
+  | cons c cs =>
+    simp only
+    by_cases hc : (((tally data idx).filter (·.2 = maxCount (tally data idx))).map (·.1)).contains c = true
+    · have hm : c ∈ ((tally data idx).filter (·.2 = maxCount (tally data idx))).map (·.1) := by
+        simpa using hc
+      simp only [hc, if_true]
+      exact ⟨_, hcands _ hm, by rw [key _ hm]⟩
+    · have hm := hhead _ hne
+      simp only [hc, Bool.false_eq_true, if_false]
+      exact ⟨_, hcands _ hm, by rw [key _ hm]⟩
+
+/-! ## the agreement invariant (quorum) -/
+
+/-- loop invariant: the surviving vectors are a sublist of the initial ones, at least `required`
+many once a column has been accepted, and pairwise equal on all accepted columns -/
+def Inv1 (required : Nat) (data0 : List (Nat × List Nat)) (idx : Nat)
+    (data : List (Nat × List Nat)) (acc : Option (Nat × Nat)) : Prop :=
+  data.Sublist data0 ∧ (acc = none → idx = 1) ∧
+  ∀ i cp, acc = some (i, cp) → i + 1 = idx ∧ required ≤ data.length ∧
+    ∀ d ∈ data, ∀ d' ∈ data, ∀ k, 1 ≤ k → k ≤ i → k < d.2.length ∧ d.2[k]? = d'.2[k]?
+
+theorem mem_keepAt {data : List (Nat × List Nat)} {idx cp : Nat} {d : Nat × List Nat} :
+    d ∈ keepAt data idx cp ↔ d ∈ data ∧ d.2[idx]? = some cp := by
+  simp [keepAt]
+
+theorem Inv1_step {required : Nat} {data0 data : List (Nat × List Nat)} {idx cp : Nat}
+    {acc : Option (Nat × Nat)} (hinv : Inv1 required data0 idx data acc)
+    (hcm : required ≤ cnt data idx cp) :
+    Inv1 required data0 (idx + 1) (keepAt data idx cp) (some (idx, cp)) := by
+  obtain ⟨hsub, hnone, hsome⟩ := hinv
+  refine ⟨(List.filter_sublist (l := data)).trans hsub, by simp, ?_⟩
+  intro i cp' hacc
+  simp only [Option.some.injEq, Prod.mk.injEq] at hacc
+  obtain ⟨rfl, rfl⟩ := hacc
+  refine ⟨rfl, hcm, ?_⟩
+  intro d hd d' hd' k hk1 hk
+  rw [mem_keepAt] at hd hd'
+  by_cases hki : k = idx
+  · subst hki
+    refine ⟨?_, by rw [hd.2, hd'.2]⟩
+    have := hd.2
+    rw [List.getElem?_eq_some_iff] at this
+    exact this.1
+  · cases acc with
+    | none => have := hnone rfl; omega
+    | some ic =>
+      obtain ⟨i, c⟩ := ic
+      obtain ⟨hi, -, hag⟩ := hsome i c rfl
+      exact hag d hd.1 d' hd'.1 k hk1 (by omega)
+
+theorem agree_inv1 {required : Nat} (hreq : 1 ≤ required) {data0 : List (Nat × List Nat)} :
+    ∀ (fuel idx : Nat) (choices : List Nat) (data : List (Nat × List Nat))
+      (acc : Option (Nat × Nat)) (rest : List (Nat × List Nat)) (acc' : Option (Nat × Nat)),
+      Inv1 required data0 idx data acc →
+      agree required fuel idx choices data acc = (rest, acc') →
+      ∃ idx', Inv1 required data0 idx' rest acc' := by
+  intro fuel
+  induction fuel with
+  | zero =>
+    intro idx choices data acc rest acc' hinv h
+    rw [agree_zero] at h
+    cases h
+    exact ⟨idx, hinv⟩
+  | succ fuel ih =>
+    intro idx choices data acc rest acc' hinv h
+    by_cases hcm : required ≤ maxCount (tally data idx)
+    · obtain ⟨cp, hcp, hstep⟩ := agree_step (fuel := fuel) (choices := choices) (acc := acc) hreq hcm
+      rw [hstep] at h
+      exact ih _ _ _ _ _ _ (Inv1_step hinv (by omega)) h
+    · rw [agree_stop hcm] at h
+      cases h
+      exact ⟨idx, hinv⟩
+
+/-! ## from surviving vectors back to peers -/
+
+theorem clean_keep {lastIdx lastCp : Nat} {p : PeerCp} {cps : List Nat} {removed : Nat}
+    (h : clean lastIdx lastCp p = .keep cps removed) :
+    p.start ≤ lastIdx ∧ cps = p.cps.drop (lastIdx - p.start) ∧
+      p.cps[lastIdx - p.start]? = some lastCp := by
+  unfold clean at h
+  simp only at h
+  split at h
+  · cases h
+  · split at h
+    · cases h
+    · split at h
+      · cases h
+      · rename_i h1 h2 h3
+        simp only [Clean.keep.injEq] at h
+        simp only [ne_eq, Decidable.not_not] at h3
+        exact ⟨by omega, h.1.symm, h3⟩
+
+/-- the cleaning step as a partial function on proven peers -/
+def keepOf (s : St) (e : Nat × PeerCp) : Option (Nat × List Nat) :=
+  match clean s.maxCp (s.final.getLast?.getD 0) e.2 with
+  | .keep cps _ => some (e.1, cps)
+  | _ => none
+
+theorem kept_eq (s : St) : kept s = (proven s).filterMap (keepOf s) := rfl
+
+theorem keepOf_some {s : St} {e : Nat × PeerCp} {x : Nat × List Nat} (h : keepOf s e = some x) :
+    x.1 = e.1 ∧ e.2.start ≤ s.maxCp ∧ x.2 = e.2.cps.drop (s.maxCp - e.2.start) ∧
+      e.2.cps[s.maxCp - e.2.start]? = some (s.final.getLast?.getD 0) := by
+  unfold keepOf at h
+  split at h
+  · rename_i cps removed hc
+    simp only [Option.some.injEq] at h
+    subst h
+    exact ⟨rfl, clean_keep hc⟩
+  · cases h
+
+theorem length_filterMap_eq_filter {α β} (f : α → Option β) (l : List α) :
+    (l.filterMap f).length = (l.filter (fun e => (f e).isSome)).length := by
+  induction l with
+  | nil => rfl
+  | cons a as ih =>
+    cases h : f a <;> simp [h, ih]
+
+theorem sublist_filterMap_source {α β} {f : α → Option β} {l : List α} {r : List β}
+    (h : r.Sublist (l.filterMap f)) :
+    ∃ l' : List α, l'.Sublist l ∧ l'.length = r.length ∧ ∀ e ∈ l', ∃ x ∈ r, f e = some x := by
+  obtain ⟨l'', hsub, rfl⟩ := List.sublist_filterMap_iff.1 h
+  refine ⟨l''.filter (fun e => (f e).isSome), List.filter_sublist.trans hsub,
+    (length_filterMap_eq_filter f l'').symm, ?_⟩
+  intro e he
+  simp only [List.mem_filter] at he
+  obtain ⟨x, hx⟩ := Option.isSome_iff_exists.1 he.2
+  exact ⟨x, List.mem_filterMap.2 ⟨e, he.1, hx⟩, hx⟩
+
+/-! ## `sortNat` and the `required`-th smallest length -/
+
+theorem insertNat_perm (x : Nat) (l : List Nat) : (insertNat x l).Perm (x :: l) := by
+  induction l with
+  | nil => exact List.Perm.refl _
+  | cons y ys ih =>
+    unfold insertNat
+    split
+    · exact List.Perm.refl _
+    · exact ((List.Perm.cons y ih).trans (List.Perm.swap x y ys))
+
+theorem sortNat_perm (l : List Nat) : (sortNat l).Perm l := by
+  induction l with
+  | nil => exact List.Perm.refl _
+  | cons x xs ih =>
+    show (insertNat x (sortNat xs)).Perm (x :: xs)
+    exact (insertNat_perm x _).trans (List.Perm.cons x ih)
+
+theorem insertNat_sorted (x : Nat) (l : List Nat) (h : l.Pairwise (· ≤ ·)) :
+    (insertNat x l).Pairwise (· ≤ ·) := by
+  induction l with
+  | nil => simp [insertNat]
+  | cons y ys ih =>
+    unfold insertNat
+    rw [List.pairwise_cons] at h
+    split
+    · rename_i hxy
+      refine List.pairwise_cons.2 ⟨?_, List.pairwise_cons.2 h⟩
+      intro z hz
+      rcases List.mem_cons.1 hz with rfl | hz
+      · exact hxy
+      · exact Nat.le_trans hxy (h.1 z hz)
+    · rename_i hxy
+      refine List.pairwise_cons.2 ⟨?_, ih h.2⟩
+      intro z hz
+      rcases List.mem_cons.1 ((insertNat_perm x ys).mem_iff.1 hz) with rfl | hz
+      · omega
+      · exact h.1 z hz
+
+theorem sortNat_sorted (l : List Nat) : (sortNat l).Pairwise (· ≤ ·) := by
+  induction l with
+  | nil => exact List.Pairwise.nil
+  | cons x xs ih => exact insertNat_sorted x _ ih
+
+theorem sorted_getElem?_ge {L : Nat} : ∀ (l : List Nat) (k x : Nat), l.Pairwise (· ≤ ·) →
+    l.countP (· < L) ≤ k → l[k]? = some x → L ≤ x := by
+  intro l
+  induction l with
+  | nil => intro k x _ _ h; simp at h
+  | cons y ys ih =>
+    intro k x hs hc hx
+    rw [List.pairwise_cons] at hs
+    by_cases hy : y < L
+    · rw [List.countP_cons_of_pos (by simpa using hy)] at hc
+      cases k with
+      | zero => omega
+      | succ k =>
+        rw [List.getElem?_cons_succ] at hx
+        exact ih k x hs.2 (by omega) hx
+    · cases k with
+      | zero =>
+        simp only [List.getElem?_cons_zero, Option.some.injEq] at hx
+        omega
+      | succ k =>
+        rw [List.getElem?_cons_succ] at hx
+        have := hs.1 x (List.mem_of_getElem? hx)
+        omega
+
+theorem countP_add_length_le {α} (p : α → Bool) {A l : List α} (h : A.Sublist l)
+    (hA : ∀ a ∈ A, p a = false) : l.countP p + A.length ≤ l.length := by
+  induction h with
+  | slnil => simp
+  | cons a _ ih =>
+    have := ih hA
+    by_cases hp : p a = true
+    · rw [List.countP_cons_of_pos hp, List.length_cons]; omega
+    · rw [List.countP_cons_of_neg hp, List.length_cons]; omega
+  | cons_cons a _ ih =>
+    have hpa := hA a (List.mem_cons_self)
+    have := ih (fun b hb => hA b (List.mem_cons_of_mem _ hb))
+    rw [List.countP_cons_of_neg (by simp [hpa]), List.length_cons, List.length_cons]; omega
+
+/-- the `required`-th smallest length is at least `L` when fewer than `required` vectors are
+shorter than `L` -/
+theorem nthLength_ge {required L : Nat} {A data : List (Nat × List Nat)}
+    (hreq : 1 ≤ required) (hA : A.Sublist data)
+    (hothers : data.length - A.length < required) (hdata : required ≤ data.length)
+    (hlen : ∀ a ∈ A, L ≤ a.2.length) :
+    L ≤ (sortNat (data.map (·.2.length)))[required - 1]?.getD 0 := by
+  have hl : (sortNat (data.map (·.2.length))).length = data.length := by
+    rw [(sortNat_perm _).length_eq, List.length_map]
+  have hlt : required - 1 < (sortNat (data.map (·.2.length))).length := by omega
+  rw [List.getElem?_eq_getElem hlt, Option.getD_some]
+  refine sorted_getElem?_ge _ (required - 1) _ (sortNat_sorted _) ?_ (List.getElem?_eq_getElem hlt)
+  rw [(sortNat_perm _).countP_eq, List.countP_map]
+  have := countP_add_length_le ((fun x => decide (x < L)) ∘ (fun d : Nat × List Nat => d.2.length)) hA
+    (by intro a ha; have := hlen a ha; simp; omega)
+  have := hA.length_le
+  omega
+
+/-! ## the agreement loop with an agreeing quorum (minority harmless) -/
+
+/-- invariant of the agreement loop in the presence of an agreeing quorum `A` -/
+def Inv2 (required : Nat) (A : List (Nat × List Nat)) (L : Nat) (ref : List Nat) (idx : Nat)
+    (data : List (Nat × List Nat)) (acc : Option (Nat × Nat)) : Prop :=
+  required ≤ data.length ∧
+  (∀ d ∈ data, ∀ k, 1 ≤ k → k < idx → k < L → d.2[k]? = ref[k]?) ∧
+  (idx < L → A.Sublist data ∧ data.length - A.length < required) ∧
+  (acc = none → idx = 1) ∧
+  (∀ i cp, acc = some (i, cp) → i + 1 = idx ∧ ∀ d ∈ data, i < d.2.length)
+
+theorem take_getElem? {L : Nat} {ref v : List Nat} (h : v.take L = ref) {k : Nat} (hk : k < L) :
+    v[k]? = ref[k]? := by
+  rw [← h, List.getElem?_take_of_lt hk]
+
+/-- while `idx < L` the quorum `A` wins column `idx` with `ref`'s value -/
+theorem cnt_ref_ge {L idx : Nat} {A data : List (Nat × List Nat)} {ref : List Nat}
+    (href : ref.length = L) (hagree : ∀ a ∈ A, a.2.take L = ref) (hA : A.Sublist data)
+    (hidx : idx < L) :
+    ∃ r, ref[idx]? = some r ∧ A.length ≤ cnt data idx r ∧ A.Sublist (keepAt data idx r) := by
+  have hlt : idx < ref.length := by omega
+  refine ⟨ref[idx], List.getElem?_eq_getElem hlt, ?_⟩
+  have hall : ∀ a ∈ A, decide (a.2[idx]? = some ref[idx]) = true := by
+    intro a ha
+    rw [take_getElem? (hagree a ha) hidx, List.getElem?_eq_getElem hlt]; simp
+  have hsub : A.Sublist (keepAt data idx ref[idx]) := by
+    have := hA.filter (fun d => decide (d.2[idx]? = some ref[idx]))
+    rwa [List.filter_eq_self.2 hall] at this
+  exact ⟨hsub.length_le, hsub⟩
+
+theorem Inv2_step {required L idx cp : Nat} {A data : List (Nat × List Nat)} {ref : List Nat}
+    {acc : Option (Nat × Nat)}
+    (href : ref.length = L) (hagree : ∀ a ∈ A, a.2.take L = ref)
+    (hinv : Inv2 required A L ref idx data acc)
+    (hcm : required ≤ cnt data idx cp) (hmax : ∀ v, cnt data idx v ≤ cnt data idx cp) :
+    Inv2 required A L ref (idx + 1) (keepAt data idx cp) (some (idx, cp)) := by
+  obtain ⟨hlen, hag, hA, hnone, hsome⟩ := hinv
+  have hcp : idx < L → ref[idx]? = some cp ∧ A.Sublist (keepAt data idx cp) := by
+    intro hidx
+    obtain ⟨hAs, hoth⟩ := hA hidx
+    obtain ⟨r, hr, hr1, hr2⟩ := cnt_ref_ge href hagree hAs hidx
+    by_cases hrc : r = cp
+    · subst hrc; exact ⟨hr, hr2⟩
+    · exfalso
+      have hall : ∀ a ∈ A, decide (a.2[idx]? = some cp) = false := by
+        intro a ha
+        rw [take_getElem? (hagree a ha) hidx, hr]; simp [hrc]
+      have := countP_add_length_le (fun d : Nat × List Nat => decide (d.2[idx]? = some cp)) hAs hall
+      rw [List.countP_eq_length_filter] at this
+      unfold cnt at hcm
+      omega
+  refine ⟨hcm, ?_, ?_, by simp, ?_⟩
+  · intro d hd k hk1 hk2 hk3
+    rw [mem_keepAt] at hd
+    by_cases hki : k = idx
+    · subst hki; rw [hd.2, (hcp hk3).1]
+    · exact hag d hd.1 k hk1 (by omega) hk3
+  · intro hidx
+    have hidx' : idx < L := by omega
+    refine ⟨(hcp hidx').2, ?_⟩
+    have h1 : (keepAt data idx cp).length ≤ data.length := List.length_filter_le _ _
+    have := (hA hidx').2
+    omega
+  · intro i c hic
+    simp only [Option.some.injEq, Prod.mk.injEq] at hic
+    obtain ⟨rfl, rfl⟩ := hic
+    refine ⟨rfl, ?_⟩
+    intro d hd
+    rw [mem_keepAt] at hd
+    exact (List.getElem?_eq_some_iff.1 hd.2).1
+
+theorem agree_inv2 {required L : Nat} {A : List (Nat × List Nat)} {ref : List Nat}
+    (hreq : 1 ≤ required) (hAq : required ≤ A.length) (hL : 2 ≤ L)
+    (href : ref.length = L) (hagree : ∀ a ∈ A, a.2.take L = ref) :
+    ∀ (fuel idx : Nat) (choices : List Nat) (data : List (Nat × List Nat))
+      (acc : Option (Nat × Nat)) (rest : List (Nat × List Nat)) (acc' : Option (Nat × Nat)),
+      Inv2 required A L ref idx data acc → L ≤ idx + fuel →
+      agree required fuel idx choices data acc = (rest, acc') →
+      ∃ i cp, acc' = some (i, cp) ∧ L ≤ i + 1 ∧ rest ≠ [] ∧
+        ∀ d ∈ rest, ∀ k, 1 ≤ k → k < L → d.2[k]? = ref[k]? := by
+  have hdone : ∀ (idx : Nat) (data : List (Nat × List Nat)) (acc : Option (Nat × Nat)),
+      Inv2 required A L ref idx data acc → L ≤ idx →
+      ∃ i cp, acc = some (i, cp) ∧ L ≤ i + 1 ∧ data ≠ [] ∧
+        ∀ d ∈ data, ∀ k, 1 ≤ k → k < L → d.2[k]? = ref[k]? := by
+    intro idx data acc ⟨hlen, hag, hA, hnone, hsome⟩ hidx
+    cases acc with
+    | none => have := hnone rfl; omega
+    | some ic =>
+      obtain ⟨i, c⟩ := ic
+      obtain ⟨hi, -⟩ := hsome i c rfl
+      refine ⟨i, c, rfl, by omega, ?_, fun d hd k hk1 hk2 => hag d hd k hk1 (by omega) hk2⟩
+      intro hnil; rw [hnil] at hlen; simp at hlen; omega
+  intro fuel
+  induction fuel with
+  | zero =>
+    intro idx choices data acc rest acc' hinv hfuel h
+    rw [agree_zero] at h
+    cases h
+    exact hdone idx _ _ hinv (by omega)
+  | succ fuel ih =>
+    intro idx choices data acc rest acc' hinv hfuel h
+    by_cases hcm : required ≤ maxCount (tally data idx)
+    · obtain ⟨cp, hcp, hstep⟩ := agree_step (fuel := fuel) (choices := choices) (acc := acc) hreq hcm
+      rw [hstep] at h
+      refine ih _ _ _ _ _ _ (Inv2_step href hagree hinv (by omega) ?_) (by omega) h
+      intro v; rw [hcp]; exact cnt_le_maxCount data idx v
+    · rw [agree_stop hcm] at h
+      cases h
+      refine hdone idx _ _ hinv ?_
+      apply Nat.le_of_not_lt
+      intro hidx
+      obtain ⟨-, -, hA, -, -⟩ := hinv
+      obtain ⟨r, -, hr1, -⟩ := cnt_ref_ge href hagree (hA hidx).1 hidx
+      have := cnt_le_maxCount data idx r
+      omega
+
+theorem prefix_of_agree {L index : Nat} {ref cps : List Nat} (href : ref.length = L)
+    (hidx : L ≤ index + 1) (h : ∀ k, 1 ≤ k → k < L → cps[k]? = ref[k]?) :
+    ref.drop 1 <+: (cps.drop 1).take index := by
+  rw [List.prefix_iff_eq_take]
+  apply List.ext_getElem?
+  intro n
+  simp only [List.length_drop, List.getElem?_drop, List.take_take, List.getElem?_take]
+  by_cases hn : n < L - 1
+  · rw [if_pos (by omega), h (1 + n) (by omega) (by omega)]
+  · rw [if_neg (by omega)]
+    exact List.getElem?_eq_none (by omega)
+
 end Quorum
